@@ -461,13 +461,22 @@ func readInt(n int, b []byte) ([]byte, uint64, error) {
 	nn := uint64(0)
 
 	for i := 1; i < len(b); i++ {
-		if shift := (i - 1) * 7; shift >= 64 {
+		shift := (i - 1) * 7
+		group := uint64(b[i] & 127)
+
+		// The tenth group starts at bit 63, so all but its lowest bit fall off
+		// the end of a uint64: 2^64+16 used to read as 16, a valid index.
+		if shift >= 64 || (shift == 63 && group > 1) {
 			return b, 0, ErrIntOverflow
-		} else {
-			nn |= uint64(b[i]&127) << shift
 		}
 
+		nn |= group << shift
+
 		if b[i]&128 != 128 {
+			if nn > ^uint64(0)-uint64(b0) {
+				return b, 0, ErrIntOverflow
+			}
+
 			return b[i+1:], nn + uint64(b0), nil
 		}
 	}
